@@ -231,6 +231,10 @@ func (s *patternPropertyParameterRewriter) rewriteProperties(properties *cypher.
 		return fmt.Errorf("pattern property parameter %q: %w", parameterName, err)
 	}
 	if len(propertyMap) == 0 {
+		// The pattern no longer mentions the parameter. The rewritten parameter map must still be created: it is what
+		// gets sent with the rewritten text, and every other parameter of the query has to be in it.
+		delete(s.ensureRewrittenParameters(), parameterName)
+
 		*properties = nil
 		s.rewritten = true
 		return nil
